@@ -199,6 +199,8 @@ def coq_hygiene():
     """grep gate over the whole development (comments stripped)."""
     bad = []
     for f in sorted(glob.glob(os.path.join(COQ, "*.v"))):
+        if os.path.basename(f).startswith("Goal_tmp"):
+            continue
         txt = strip_comments(open(f).read())
         for ln, line in enumerate(txt.split("\n"), 1):
             if HYGIENE_RE.search(line):
@@ -217,7 +219,7 @@ def coq_hygiene():
 
 
 def coq_files():
-    return sorted(os.path.basename(f) for f in glob.glob(os.path.join(COQ, "*.v")))
+    return sorted(os.path.basename(f) for f in glob.glob(os.path.join(COQ, "*.v")) if not os.path.basename(f).startswith("Goal_tmp"))
 
 
 def gen_extract():
